@@ -270,6 +270,9 @@ func (x *Exec) branch(c *Term) bool {
 		return true
 	}
 	// both feasible: take true, queue false
+	if debugForks {
+		fmt.Fprintf(os.Stderr, "FORK #%d at\n%s\n", len(x.trace), x.stackString())
+	}
 	sib := append(append([]Decision{}, x.trace...), Decision{DecBranch, 0})
 	x.pending = append(x.pending, sib)
 	x.trace = append(x.trace, Decision{DecBranch, 1})
